@@ -2,10 +2,11 @@ ID = 'C18'
 GROUPS = ['common', 'plugin_api']
 CXX_SOURCES = []
 LIBS = ['-lcppunit', '-ldl']
+WRAP = ['pthread_cond_wait', 'pthread_cond_signal']
 
 RULE = ('histories over one file-backed store in a private directory: set / set-multiple / remove / clear / get / '
         'save+synchronise / save interrupted after k system calls (every k from 0 to all) followed by a process '
-        'restart / load / restart / hand-written settings files / universe appear-rename-teardown / device '
+        'restart / save+synchronise with n spurious wake-ups of pthread_cond_wait and a slow disk / save whose writes fail with ENOSPC from the k-th on / load / restart / hand-written settings files / universe appear-rename-teardown / device '
         'register-patch-priority-unregister-shutdown; keys and values aimed at the separators (=, #, blanks, empty, '
         'prefixes of each other, bytes above 127), universe ids at 0, 2^31-1, 2^31, 2^32-1, priorities at 0, 200, '
         '201, 255; a minority of inputs outside the side conditions (untrimmed, key with =, embedded newline). '
@@ -15,8 +16,12 @@ RULE = ('histories over one file-backed store in a private directory: set / set-
 ASSUMPTIONS = ['a crash is a process crash: what the kernel holds after the last completed system call is what the '
                'next process sees (no power loss; fsync is not needed and not modelled)',
                'rename(2) replaces the destination atomically (POSIX); hypothesis of c18_crash_atomic',
-               'write/close do not fail (no ENOSPC/EIO); the fixed code keeps the old file in that case but the '
-               'branch is not modelled',
+               'a failing write fails for good (every later write of that save fails too) - what the harness injects; the '
+               'theorem c18_write_failure_keeps_old covers any mix of successful, short and failing writes; a failing close '
+               'or rename is not modelled',
+               'c18_sync: each step of a thread (queue push / swap under m_incoming_mutex, lock, unlock, flag access under '
+               'the mutex, signal, one whole save) is atomic, memory is sequentially consistent for accesses made under the '
+               'mutex, pthread_cond_wait releases the mutex and blocks atomically; safety only (no fairness / termination)',
                'one saver thread, saves to one file are serialised by it; no second writer of the directory',
                'device allows looping and multi-port patching, so PatchPort during restore is never vetoed (C03 territory)']
 TRUSTED = ['modelled rather than verified: Preferences.cpp MemoryPreferences::{SetValue,SetMultipleValue,RemoveValue,Clear,'
@@ -29,11 +34,16 @@ TRUSTED = ['modelled rather than verified: Preferences.cpp MemoryPreferences::{S
            'are modelled as a sorted list with insertion at the upper bound',
            'libstdc++ ofstream: one write per std::endl (observed by the interposer; the crash theorem itself '
            'quantifies over every chunking of the file contents)',
-           'harness interposes fopen/open/write/writev/close/fclose/rename/unlink/remove by defining them in the executable']
+           'harness interposes fopen/open/write/writev/close/fclose/rename/unlink/remove by defining them in the executable, '
+           'and pthread_cond_wait through ld --wrap (spurious wake-up = unlock, yield, lock, return 0)',
+           'the saver-thread machine (SyncModel.v: SelectServer::Execute / DrainAndExecute / RunCallbacks as a FIFO with batch swap, '
+           'Synchronize, CompleteSynchronization) is hand-written and is tied to the code only behaviourally (file observed at '
+           'the return of the real Synchronize under injected spurious wake-ups); it is not extracted']
 
-_KEYS = ['s', 'f', 'a', 'u', 'p']
+_KEYS = ['s', 'f', 'a', 'u', 'p', 'y']
 SPEC_KEYS = set('%s%d' % (k, i) for k in _KEYS for i in range(0, 300))
-INTERNAL_KEYS = []
+# xc / xi: system calls and images of a save with failing writes (how often libstdc++ retries is its business)
+INTERNAL_KEYS = ['xc%d' % i for i in range(300)] + ['xi%d' % i for i in range(300)]
 PROC_TIMEOUT = 900
 
 
@@ -150,6 +160,22 @@ def gen_cases(rng, tier):
                   else [rng.choice([0, 1, 2]), rng.randrange(14)]):
             tail = ['G:%s' % hx(keys[0])] + (fill(rng, 1, keys) + ['V', 'L'] if rng.random() < 0.5 else [])
             yield ' '.join(prefix + ['X:%d' % k] + tail)
+    # 3b. Synchronize() with spurious wake-ups of the waiting thread and a slow disk
+    for i in range(40 * scale):
+        keys = [rkey(rng) for _ in range(rng.randint(1, 3))]
+        ops = fill(rng, rng.randint(1, 4), keys) + ['Y:%d' % rng.choice([0, 1, 1, 2, 3, 7])]
+        ops += fill(rng, rng.randint(0, 2), keys) + [rng.choice(['Y:1', 'Y:2', 'V', 'L'])]
+        yield ' '.join(ops)
+    # 3c. a save during which the disk fills up: every write from the k-th on fails
+    for i in range(80 * scale):
+        keys = [rkey(rng) for _ in range(rng.randint(1, 3))]
+        first = fill(rng, rng.randint(0, 4), keys)
+        second = fill(rng, rng.randint(1, 4), keys)
+        ops = first + (['V'] if rng.random() < 0.7 else []) + second
+        ops += ['W:%d' % rng.choice([1, 1, 2, 3, rng.randint(1, 9)]), rng.choice(['L', 'G:%s' % hx(keys[0])])]
+        if rng.random() < 0.5:
+            ops += fill(rng, 1, keys) + ['V', 'L']
+        yield ' '.join(ops)
     # 4. load on the live store, with and without a file; restart without saving loses the changes
     for i in range(60 * scale):
         ops = fill(rng, rng.randint(1, 3)) + [rng.choice(['l', 'L'])] + fill(rng, rng.randint(0, 2))
@@ -218,9 +244,12 @@ LEVEL_TEXT = ('Coq theorems over an executable model of the preference store, it
               'previous directory contents, the file is byte-for-byte the old one or the complete new one (rename '
               'atomicity as an explicit hypothesis); every history of set/remove/save/crash/load/restart keeps the '
               'store loadable; universe name / merge mode and port patch (all 2^32 ids) / priority / mode written at '
-              'teardown are restored. The "saver thread synchronised" clause is only exercised by the harness '
-              '(real thread + Synchronize), not proved (C17 owns that model); an empty universe name is not '
-              'restored (the code treats an empty setting as absent) and is excluded by a guard.')
+              'teardown are restored, the port settings also through the file for every key Port::UniqueId() produces; '
+              'for every schedule of the saver-thread machine (two threads, FIFO, mutex, condition variable, spurious '
+              'wake-ups) every save issued before a Synchronize has completed when it returns and the file is the most '
+              'recent one (safety; termination of Synchronize is not proved); a save whose writes fail keeps the old '
+              'file at every crash point. An empty universe name is not restored (the code treats an empty setting as '
+              'absent) and is excluded by a guard (known finding); the rdm discovery interval restore is not modelled.')
 LEVEL_NOTE = ('Trusted: Coq kernel, extraction (ExtrOcamlBasic), OCaml/C++ glue, generator coverage; model = code is '
               'validated by differential testing against the real FileBackedPreferences, FilePreferenceSaverThread, '
               'UniverseStore, DeviceManager and PortManager (ASan/UBSan build), with the directory image captured '
